@@ -419,7 +419,14 @@ pub fn invariants(snap: &Snap, model: Option<&Model>) -> Vec<Diff> {
                 }
             }
         }
-        if let Some(&(r, c)) = t.invalid_cells.first() {
+        // (the library's own category parser accepts two spellings that the enumeration it
+        // declares for _Validation.Category does not list; other tools write them)
+        let alt_spelling = |r: usize, c: usize| -> bool {
+            name == "_Validation"
+                && t.cols.get(c).map(|c| c.name == "Category").unwrap_or(false)
+                && matches!(&t.rows[r][c], Val::Str(s) if s == "Guid" || s == "FormattedSddlText")
+        };
+        if let Some(&(r, c)) = t.invalid_cells.iter().find(|&&(r, c)| !alt_spelling(r, c)) {
             // foreign tables may legitimately hold anything; library-written
             // (model-known, plain) tables may not
             if mt.map(|t| t.plain || t.catalog).unwrap_or(false) {
